@@ -1341,7 +1341,15 @@ class Torrent():
                     continue
 
             # Check file size
-            fs_filepath_size = utils.real_size(fs_filepath)
+            try:
+                fs_filepath_size = utils.real_size(fs_filepath)
+            except error.ReadError as e:
+                # E.g. `fs_filepath` is a directory with an unreadable file
+                exception = e
+                if cancel(file_index, exception):
+                    return False
+                else:
+                    continue
             expected_size = self.partial_size(torrent_filepath)
             if fs_filepath_size != expected_size:
                 exception = error.VerifyFileSizeError(fs_filepath, fs_filepath_size, expected_size)
